@@ -3,15 +3,19 @@
    (a function of the byte string only), every early-rejection predicate [early], every cache
    path p, every initial file system, every list of servers with arbitrary outcomes of the
    file-system calls, and EVERY event list — in particular with EDrop (the future is dropped)
-   at any position.  They are full statements about the state machine.  Two keep the suffix
-   `_partial`: c16_no_stray_tmp_partial and c16_locate_no_stray_tmp_partial — the removal of the
-   temp file on every exit edge is NamedTempFile's Drop running when the future's locals are
-   dropped; the model has it as a definition (drop_temp), it is not derived from anything, and
-   a killed process never runs it.  The property as a whole stays partial (manifest): the
+   at any position.  They are full statements about the state machine.
+   Round 5: c16_no_stray_tmp / c16_locate_no_stray_tmp lost the suffix `_partial`.  The removal of the temp file on every
+   exit edge is no longer written into the model edge by edge and then read back: the state machine of C16/Model.v is
+   proved to be (c16_model_is_ownership_semantics) the interpreter of C16/Raii.v — a frame of owned locals, ONE drop site
+   (the frame is left: return, `?`, or the future dropped at an await), a NamedTempFile's drop removes its file, passing it
+   by value to commit_cache_file moves it — run on the step list that translate/c16_fsops.py extracts from
+   fetch_symbol_file, and that interpreter leaves no temp file behind for EVERY program (c16_raii_every_program).
+   What stays outside: that rustc runs drops where the language says, tempfile's Drop implementation, and a killed
+   process (no drops at all).  The property as a whole stays partial (manifest): the
    events are what reqwest/hyper/tokio deliver, persist is one step by the kernel's rename
    atomicity, a concurrently writing second process is outside the model. *)
 From RM Require Import C09.Grammar C10.Model C16.Model C16.Proofs C16.Rehit C16.Driver C16.Shared C16.SharedProofs C16.SharedProofs2 C16.Refine Gen.C16Ops.
-From RM Require C09.Model C10.Stream C16.Stream C16.StreamProofs C16.StreamInst C16.StreamProofs2 C16.StreamPins C16.StaleFlag.
+From RM Require C09.Model C10.Stream C16.Stream C16.StreamProofs C16.StreamInst C16.StreamProofs2 C16.StreamPins C16.StaleFlag C16.Raii C16.RaiiProofs.
 Open Scope Z_scope.
 
 Section Statements.
@@ -51,11 +55,11 @@ Section Statements.
 
   (* After any finished run — success, failure, or drop at any point — the tmp directory is
      as before; while a run is pending there is at most the one in-flight temp file. *)
-  Theorem c16_no_stray_tmp_partial : forall f0 ss evs,
+  Theorem c16_no_stray_tmp : forall f0 ss evs,
     let s := run (net_start f0 ss) evs in
     (finished T s -> tmp (s_fs s) = tmp f0) /\
     (tmp (s_fs s) = tmp f0 \/ exists c, tmp (s_fs s) = (fresh (tmp f0), c) :: tmp f0).
-  Proof. exact (net_no_stray_tmp T parse early p). Qed.
+  Proof. exact (RM.C16.RaiiProofs.net_no_stray_tmp_own T parse early p). Qed.
 
   (* Every run that does not end in success (HTTP error, send error, cut body, corrupt
      content, dropped, still pending) leaves the whole cache as it was — a pre-existing entry
@@ -92,11 +96,11 @@ Section Statements.
       c = cached_form (concat chunks) (s_url cur).
   Proof. exact (locate_entry_only_after_ok T parse early p). Qed.
 
-  Theorem c16_locate_no_stray_tmp_partial : forall f locals ss evs,
+  Theorem c16_locate_no_stray_tmp : forall f locals ss evs,
     let s := locate f locals None ss evs in
     (finished T s -> tmp (s_fs s) = tmp f) /\
     (tmp (s_fs s) = tmp f \/ exists c, tmp (s_fs s) = (fresh (tmp f), c) :: tmp f).
-  Proof. exact (locate_no_stray_tmp T parse early p). Qed.
+  Proof. exact (RM.C16.RaiiProofs.locate_no_stray_tmp_own T parse early p). Qed.
 
   Theorem c16_locate_failed_leaves_no_entry : forall f locals ss evs,
     let s := locate f locals None ss evs in
@@ -136,11 +140,11 @@ End Statements.
 
 Print Assumptions c16_commit_only_after_ok.
 Print Assumptions c16_content.
-Print Assumptions c16_no_stray_tmp_partial.
+Print Assumptions c16_no_stray_tmp.
 Print Assumptions c16_failed_leaves_no_entry.
 Print Assumptions c16_success_cases.
 Print Assumptions c16_locate_entry_only_after_ok.
-Print Assumptions c16_locate_no_stray_tmp_partial.
+Print Assumptions c16_locate_no_stray_tmp.
 Print Assumptions c16_locate_failed_leaves_no_entry.
 Print Assumptions c16_only_notfound_cascades.
 Print Assumptions c16_rehit_same_any_parser.
@@ -393,6 +397,49 @@ Proof. exact (fun T parse c0 => shared_new_entry_provenance T parse create_ops c
 Print Assumptions c16_shared_new_entry_provenance.
 
 (* ================================================================================================
+   Round 5: RAII derived, not stipulated (C16/Raii.v, C16/RaiiProofs.v).
+   [irun prog]: fetch_symbol_file's body as a list of steps run under ownership rules — the droppable locals live in a frame;
+   the ONLY drop sites are [leave] (applied by the interpreter whenever the frame is left: `Ok(..)`, an error through `?`, the
+   future dropped while suspended at an await) and the overwriting of `temp`; a dropped NamedTempFile removes its file;
+   `commit_cache_file(temp, ..)` takes it by value (the callee persists it or drops it: c16_commit_program_refines). *)
+
+(* EVERY program over these steps (any order, any repetition), every list of servers, every event list (EDrop anywhere),
+   every outcome of every file-system call: once a call of the function has been left the tmp directory is as it was when
+   the lookup started; while one is running it holds at most the file the frame owns. *)
+Theorem c16_raii_every_program :
+  forall (T : Type) (parse : bytes -> option (T * option bytes)) (early : bytes -> bool) (p : path)
+         (prog : list fstep) f0 ss evs,
+  let s := RM.C16.Raii.irun T parse early p prog (RM.C16.Raii.istart T prog f0 ss) evs in
+  match RM.C16.Raii.i_l s with
+  | RM.C16.Raii.IRun _ _ _ fr => tmp_inv f0 (RM.C16.Raii.i_fs s) (RM.C16.Raii.fr_temp fr)
+  | _ => tmp (RM.C16.Raii.i_fs s) = tmp f0
+  end.
+Proof. exact RM.C16.RaiiProofs.raii_any_program. Qed.
+Print Assumptions c16_raii_every_program.
+
+(* The state machine of C16/Model.v (what all theorems above are about, and what is compared with the real code) IS that
+   interpreter on the step list translated from the source (Gen/C16Ops.v fetch_steps): same file system, request log, result
+   and continuation after every event list.  So the drop_temp calls in Model.step are exactly the drops the ownership
+   rules produce — none missing, none extra. *)
+Theorem c16_model_is_ownership_semantics :
+  forall (T : Type) (parse : bytes -> option (T * option bytes)) (early : bytes -> bool) (p : path) f0 ss evs,
+  RM.C16.RaiiProofs.embed T (run T parse early p (net_start T f0 ss) evs)
+  = RM.C16.Raii.irun T parse early p fetch_steps (RM.C16.Raii.istart T fetch_steps f0 ss) evs.
+Proof. exact RM.C16.RaiiProofs.model_is_program. Qed.
+Print Assumptions c16_model_is_ownership_semantics.
+
+(* non-vacuity: a program that forgets nothing still cannot leak — and one that creates the temp file twice
+   (`FCreate; FCreate`) does not either: the first handle is dropped by the assignment *)
+Example c16_nonvacuous_raii_double_create :
+  let prog := [FSend; FCreate; FCreate; FParseTee; FReturnOk] in
+  let s := RM.C16.Raii.irun (Z * Z) parse_drv early_drv 7 prog
+             (RM.C16.Raii.istart (Z * Z) prog (init_fs 0 []) [mkserver 0 [104] (mk_env true true (-1) true true)])
+             [EHead 200; EChunk [77; 79; 68]] in
+  List.length (tmp (RM.C16.Raii.i_fs s)) = 1%nat /\
+  tmp (RM.C16.Raii.i_fs (RM.C16.Raii.istep (Z * Z) parse_drv early_drv 7 prog s EDrop)) = [].
+Proof. vm_compute. split; reflexivity. Qed.
+
+(* ================================================================================================
    Round 5: the download with the REAL streaming parser inside (C16/Stream.v).
    Above, the parser is a function of the whole byte string and "the temp file holds all bytes received" is a
    simplification.  Here fetch_symbol_file is composed with the loop of SymbolFile::parse_async itself
@@ -557,22 +604,51 @@ Theorem c16_stream_lookup_entry_only_from_whole_body :
          (lineno : PS -> Z) (T : Type) (finish : PS -> option T) (split : bytes -> list L * Z) (p : path),
   (forall l, 1 <= llen l) ->
   forall ss f, Forall (SP.resp_ok L llen split) ss ->
-  let R := S.lookup_stream L llen PS init_ps recog bump lineno T finish split p f ss in
+  let R := S.lookup_stream L llen PS init_ps recog bump lineno T finish split p note_url_src report_url_src f ss in
   let f' := fst (fst R) in
   tmp f' = tmp f /\ (forall q, q <> p -> cache f' q = cache f q) /\
   match snd (fst R) with
   | None => cache_eq f' f /\ snd R = SP.ids ss
   | Some (t, u) =>
-      exists pre s code b script post,
-        ss = pre ++ (s, S.RHead code b script) :: post /\ u = s_url s /\ code < 400 /\ C10.Stream.fails script = false /\
+      exists pre s code final b script post,
+        ss = pre ++ (s, S.RHead code final b script) :: post /\ u = pick_url report_url_src (s_url s) final /\
+        code < 400 /\ C10.Stream.fails script = false /\
         (exists ps x, C10.Stream.drive_stream L llen PS init_ps recog bump lineno (fst (split b)) (snd (split b)) script
                       = Ret (C09.Model.ROk ps, x) /\
                       finish ps = Some t /\ C09.Model.cbsum (C10.Stream.core x) = Z.of_nat (length b)) /\
-        commit_post p f f' b u /\
-        snd R = SP.ids (pre ++ [(s, S.RHead code b script)])
+        commit_post p f f' b (pick_url note_url_src (s_url s) final) /\
+        snd R = SP.ids (pre ++ [(s, S.RHead code final b script)])
   end.
-Proof. exact SP.lookup_stream_cases. Qed.
+Proof. exact (fun L llen PS init_ps recog bump lineno T finish split p H => SP.lookup_stream_cases L llen PS init_ps recog bump lineno T finish split p H note_url_src report_url_src). Qed.
 Print Assumptions c16_stream_lookup_entry_only_from_whole_body.
+
+(* Redirects.  Every response carries two URLs: the one requested and the one it finally came from ([final] is arbitrary:
+   reqwest follows redirects inside send()).  Which one fetch_symbol_file reports to the caller and which one it writes into the
+   note are translated from http.rs (Gen/C16Ops.v report_url_src: `symbol_file.url = Some(url.to_string())`; note_url_src: the
+   third argument of commit_cache_file).  They are the same source, hence for EVERY final URL the entry a successful lookup
+   creates is annotated with exactly the URL the lookup reported — which is what the cache hit will report
+   (c16_stream_download_then_cache_hit).  With seeded/C16-8 the translator emits note_url_src = UFinal and this is no longer
+   provable: the note names the redirect target, the caller was told the requested URL. *)
+Theorem c16_stream_note_is_reported_url :
+  note_url_src = report_url_src /\
+  forall (L : Type) (llen : L -> Z) (PS : Type) (init_ps : PS) (recog : PS -> L -> PS + Z) (bump : PS -> PS)
+         (lineno : PS -> Z) (T : Type) (finish : PS -> option T) (split : bytes -> list L * Z) (p : path),
+  (forall l, 1 <= llen l) ->
+  forall ss f t u c, Forall (SP.resp_ok L llen split) ss ->
+  let R := S.lookup_stream L llen PS init_ps recog bump lineno T finish split p note_url_src report_url_src f ss in
+  snd (fst R) = Some (t, u) ->
+  cache (fst (fst R)) p = Some (File c) -> cache f p <> Some (File c) ->
+  exists b, c = cached_form b u.
+Proof.
+  split; [reflexivity|].
+  intros L llen PS init_ps recog bump lineno T finish split p Hl ss f t u c Hok R Hres Hc Hnew.
+  pose proof (SP.lookup_stream_cases L llen PS init_ps recog bump lineno T finish split p Hl note_url_src report_url_src ss f Hok) as H.
+  cbv zeta in H. destruct H as [_ [_ H]]. subst R. rewrite Hres in H.
+  destruct H as [pre [s [code [final [b [script [post [_ [Eu [_ [_ [_ [Hpost _]]]]]]]]]]]]].
+  exists b. replace (pick_url note_url_src (s_url s) final) with u in Hpost by (rewrite Eu; reflexivity).
+  destruct Hpost as [H|[H|[H _]]]; rewrite H in Hc; [inversion Hc; reflexivity|contradiction|discriminate].
+Qed.
+Print Assumptions c16_stream_note_is_reported_url.
 
 (* The class of seeded/C16-7 stated on the model (C16/StaleFlag.v: the loop with a fast path `if consumed == 0 { continue; }`
    in front of the bookkeeping after parse_more, so that fully_consumed keeps the previous iteration's value).
